@@ -10,10 +10,10 @@
 package syntax
 
 // segOK: facts every *Segment produced by NewSegment satisfies; Segment fields are written by NewSegment only.
-//@ pred segShape(s *Segment) = s != nil && 0 <= s.Type && s.Type <= 3 && len(s.Value) <= 32767 &&
+//@ opaque pred segShape(s *Segment) = s != nil && 0 <= s.Type && s.Type <= 3 && len(s.Value) <= 32767 &&
 //@      (s.Type == 0 ==> s.Name == "" && s.Suffix == "") &&
 //@      (s.Type != 0 ==> (len(s.Name) > 0 || s.ignoreName) && len(s.Value) >= 3 + len(s.Suffix) && s.Value[0] == '{' && hasSuffix(s.Value, s.Suffix))
-//@ pred segMatcher(s *Segment) = ((s.Type == 1 || s.Type == 3) ==> s.matcher != nil && (!s.Endpoint ==> len(s.Suffix) > 0)) &&
+//@ opaque pred segMatcher(s *Segment) = ((s.Type == 1 || s.Type == 3) ==> s.matcher != nil && (!s.Endpoint ==> len(s.Suffix) > 0)) &&
 //@      (s.Type == 3 ==> s.matcher == funcval("syntax.Interceptors.NewSegment$1"))
 //
 // The matcher of a named segment is the closure below, proved to accept everything; the axiom lifts that contract
@@ -22,7 +22,7 @@ package syntax
 //@   nopanic
 //@   ensures [C02] always: result
 //@ axiom forall v string :: pure0("syntax.InterceptorFunc", funcval("syntax.Interceptors.NewSegment$1"), v)
-//@ pred segRegexp(s *Segment) = (s.Type == 2 ==> s.expr != nil && (selfContained(s.rule) ==> s.expr.gtail == s.Suffix))
+//@ opaque pred segRegexp(s *Segment) = (s.Type == 2 ==> s.expr != nil && (selfContained(s.rule) ==> s.expr.gtail == s.Suffix))
 //@ pred segOK(s *Segment) = segShape(s) && segMatcher(s) && segRegexp(s)
 //
 // icOK: registered interceptor functions are non-nil (A4 at the API boundary: WithInterceptor / RegisterInterceptor)
@@ -158,6 +158,8 @@ package syntax
 //@        accepts(seg, old(ctx.Path)[:len(old(ctx.Path)) - len(seg.Suffix) - len(ctx.Path)])
 //@   ensures [C01] capture: result && seg.Type != 0 && !seg.ignoreName && kindOK(seg) ==> dom(ctx.params) == store(old(dom(ctx.params)), seg.Name, true) &&
 //@        ctx.params[seg.Name] == old(ctx.Path)[:len(old(ctx.Path)) - len(seg.Suffix) - len(ctx.Path)] &&
+//@        (forall x string :: x != seg.Name ==> ctx.params[x] == old(ctx.params[x]))
+//@   ensures [C01] capture-frame: result && seg.Type != 0 && !seg.ignoreName ==> dom(ctx.params) == store(old(dom(ctx.params)), seg.Name, true) &&
 //@        (forall x string :: x != seg.Name ==> ctx.params[x] == old(ctx.params[x]))
 //@   ensures [C01] no-capture: result && seg.Type != 0 && seg.ignoreName ==> ctx.params == old(ctx.params) &&
 //@        dom(ctx.params) == old(dom(ctx.params)) && (forall x string :: ctx.params[x] == old(ctx.params[x]))
